@@ -99,6 +99,10 @@ def snapshot_search(solver, full=True):
     items = []
     sd = solver.searchData
     objs = []
+    if sd.GetCount() == 0:
+        # before the first iteration the container is empty (iterating it raises StopIteration out of __iter__:
+        # outside every listed property's histories, see DESIGN section 5)
+        return {"count": 0, "n": 0, "links": True, "items": [], "_objs": []}
     try:
         for it in sd:
             objs.append(it)
@@ -285,6 +289,11 @@ class SolverRun:
             last["bf"] = q(raw_value(self.rp, [float(t) for t in sol.bestTrials[0].point.floatVariables])) if last["sol"]["has"] else "none"
         except Exception:   # noqa: BLE001
             last["bf"] = "none"
+
+    def observe(self):
+        """no call into the solver except GetResults(): what the user sees of this solver right now"""
+        self.emit({"ev": "call", "name": "observe", "k": 0})
+        return self._after_call("observe", {"raised": "none", "k": 0})
 
     def trial_xs(self):
         return [e["x"] for e in self.events if e["ev"] == "trial"]
